@@ -104,7 +104,7 @@ CLAIMS = {
         ref="4 C04"),
     "C08": dict(
         technique="metamorphic testing over schedules: one case executed under M harness-steered schedules (capacities, GOMAXPROCS, seeded per-operation delays, read gates) with outcome equality as the oracle; in-flight counters on the harness stream; Go race detector build on half of the shards",
-        text="A fixed source/destination pair with 30-120 multi-chunk files (or 400/700 smaller ones) is transferred under 6 (quick) or 24 (thorough) drawn schedules: stream capacity 0-64, GOMAXPROCS 1-16, deterministic per-operation disturbances before and after every stream call, before every source read and inside the hasher/notify callbacks, and a gate that releases parked readers in a drawn order. The canonical outcome (destination snapshot, content-request set, notification set with digests, hard-link exception removed) must be identical across schedules, and a run that becomes quiescent without returning under any schedule is a violation; the raw endpoints handed to Send/Receive count in-flight calls and must never see two SendMsg or two RecvMsg at once; odd shards run under the race detector. Sampled schedules, no proof.",
+        text="A fixed source/destination pair with 30-120 multi-chunk files (or 400/700 smaller ones) is transferred under 6 (quick) or 24 (thorough) drawn schedules: stream capacity 0-64, GOMAXPROCS 1-16, deterministic per-operation disturbances before and after every stream call, before every source read and inside the hasher/notify callbacks, and a gate that releases parked readers in a drawn order. The canonical outcome (destination snapshot, content-request set, notification set with digests, hard-link exception removed) must be identical across schedules, and a run that becomes quiescent without returning under any schedule is a violation; the raw endpoints handed to Send/Receive count in-flight calls and must never see two SendMsg or two RecvMsg at once; odd shards run under the race detector. A second sub-run (walkrace) does the same on small trees whose old destination holds directories that the source replaces by fifos, symlinks, devices or nothing, perturbing both on-disk walkers through the verif-tagged hook and holding the destination walker between reporting and opening such a directory until the disk writer has dealt with it. Sampled schedules, no proof.",
         note="Go offers no deterministic scheduler: interleavings inside one end that never touch the stream, a read or a callback are only perturbed. Absence of data races is established for the explored executions only.",
         ref="4 C08"),
 }
